@@ -348,7 +348,9 @@ func ValidateAuthReqRedirectURI(client Client, uri string, responseType oidc.Res
 // ValidateAuthReqRedirectURINative validates the passed redirect_uri and response_type to the registered uris and client type
 func validateAuthReqRedirectURINative(client Client, uri string) error {
 	parsedURL, isLoopback := HTTPLoopbackOrLocalhost(uri)
-	isCustomSchema := !(strings.HasPrefix(uri, "http://") || strings.HasPrefix(uri, "https://"))
+	// schemes are case-insensitive (RFC 3986 3.1): "HTTP://..." is not a custom scheme
+	lowerURI := strings.ToLower(uri)
+	isCustomSchema := !(strings.HasPrefix(lowerURI, "http://") || strings.HasPrefix(lowerURI, "https://"))
 	if err := checkURIAgainstRedirects(client, uri); err == nil {
 		if client.DevMode() {
 			return nil
